@@ -25,6 +25,10 @@ def lblToJson : Lbl Int → Json
   | .dend r => Json.arr #[.str "dend", .bool r]
   | .fault => Json.arr #[.str "fault"]
   | .resched => Json.arr #[.str "resched"]
+  | .assign d => Json.arr #[.str "assign", .bool d]
+  | .cancelRun c => Json.arr #[.str "cancelRun", .bool c]
+  | .dstop => Json.arr #[.str "dstop"]
+  | .dflag => Json.arr #[.str "dflag"]
 
 def callOfJson (j : Json) : Except String (Call Int) :=
   match j with
@@ -36,6 +40,7 @@ def tidOfJson (k : Json) (i : Json) : Except String Tid := do
   match k with
   | .str "p" => pure (.prod n)
   | .str "c" => pure (.cons n)
+  | .str "d" => pure (.disp n)
   | _ => throw "bad tid"
 
 def sysJson (s : Sys Int) : Json :=
@@ -43,7 +48,8 @@ def sysJson (s : Sys Int) : Json :=
     ("received", Json.arr (s.received.map fun x => Json.num (JsonNumber.fromInt x)).toArray),
     ("queue", Json.arr (s.queue.map fun x => Json.num (JsonNumber.fromInt x)).toArray),
     ("acq", .bool s.isAcquired), ("faulted", .bool s.hasFaulted), ("stopped", .bool s.isStopped),
-    ("pending", .num (JsonNumber.fromNat s.pendingRuns)), ("quiescent", .bool (quiescent s))]
+    ("pending", .num (JsonNumber.fromNat s.pendingRuns)), ("quiescent", .bool (quiescent s)),
+    ("lost", .bool s.lostToken), ("sdisposed", .bool s.serialDisposed)]
 
 def getSys (j : Json) : Except String (Sys Int × (Nat → Bool)) := do
   let progs ← (← getArr j "progs").mapM fun p => do
@@ -51,8 +57,9 @@ def getSys (j : Json) : Except String (Sys Int × (Nat → Bool)) := do
     | .arr cs => cs.toList.mapM callOfJson
     | _ => throw "bad prog"
   let nc ← getNat j "nc"
+  let nd := (j.getObjValAs? Nat "nd").toOption.getD 0
   let raisesL := (← getArr j "raises").filterMap (fun x => x.getNat?.toOption)
-  pure (init progs nc, fun k => raisesL.contains k)
+  pure (init progs nc nd, fun k => raisesL.contains k)
 
 /-- replay an observed sequence of (thread, label): each observed step must be the step the model takes. -/
 def replay (raises : Nat → Bool) : Sys Int → Nat → List (Tid × Json) → Sys Int × Option (Nat × Json)
@@ -103,6 +110,9 @@ def handleSO (op : String) (j : Json) : Except String Json := do
         let target := prodCallsLeft s i - 1
         if prodCallsLeft s i > 0 then
           s := runUntil raises (.prod i) (fun s' => prodCallsLeft s' i ≤ target) 16 s
+      | .arr #[.str "dispose", k] =>
+        let k ← k.getNat?
+        s := runUntil raises (.disp k) (fun s' => s'.disps[k]? == some .done) 8 s
       | .arr #[.str "pump", c] =>
         let c ← c.getNat?
         if s.pendingRuns > 0 then
@@ -127,12 +137,14 @@ partial def opOfJson (j : Json) : Except String Op := do
   | .arr #[.str "abs", l, t, .arr b] => pure (.schedAbs (← l.getNat?) (← t.getInt?) (← b.toList.mapM opOfJson))
   | .arr #[.str "cancel", l] => pure (.cancel (← l.getNat?))
   | .arr #[.str "tick", d] => pure (.tick (← d.getNat?))
+  | .arr #[.str "raise"] => pure .raise_
   | _ => throw s!"bad op {j.compress}"
 
 def evToJson : Ev → Option Json
   | .sched id due clk _ => some (Json.arr #[.str "sched", jNat id, jInt due, jInt clk])
   | .start id _ _ clk => some (Json.arr #[.str "start", jNat id, jInt clk])
   | .fin id => some (Json.arr #[.str "fin", jNat id])
+  | .raised id => some (Json.arr #[.str "raised", jNat id])
   | .skip id => some (Json.arr #[.str "skip", jNat id])
   | .cancel id => some (Json.arr #[.str "cancel", jNat id])
   | .wait t => some (Json.arr #[.str "wait", jInt t])
@@ -152,6 +164,8 @@ def stepLabel (fixed : Bool) (tr : Tr) (g : Glob) (th : Th) : Option Json :=
   | .act (some i) [] :: _ => some (Json.arr #[.str "fin", jNat i])
   | .act _ (.tick d :: _) :: _ => some (Json.arr #[.str "tick", jNat d])
   | .act _ (.cancel k :: _) :: _ => some (Json.arr #[.str "cancel", jNat k])
+  | .act (some i) (.raise_ :: _) :: .drain _ _ :: _ => some (Json.arr #[.str "raised", jNat i])
+  | .act _ (.raise_ :: _) :: _ => none
   | .act _ (.sched l _ :: _) :: _ => some (Json.arr #[.str "sched", jNat l, jInt g.clock, jInt g.clock])
   | .act _ (.schedRel l d _ :: _) :: _ => some (Json.arr #[.str "sched", jNat l, jInt (g.clock + max d 0), jInt g.clock])
   | .act _ (.schedAbs l t _ :: _) :: _ => some (Json.arr #[.str "sched", jNat l, jInt t, jInt g.clock])
@@ -165,6 +179,8 @@ def stepLabel (fixed : Bool) (tr : Tr) (g : Glob) (th : Th) : Option Json :=
     | [] => some (secJson none [] (if fixed then some true else none) none none)
     | it :: _ => if it.due > g.clock then some (secJson none [] none none (some it.due)) else some (secJson none [] none none none)
   | .drain .final _ :: _ => some (secJson none [] (some true) (some (tr.queue.map (·.id))) none)
+  | .drain .waiting _ :: _ => some (Json.arr #[.str "woke"])
+  | .drain .abort _ :: _ => some (secJson none [] (some true) (some (tr.queue.map (·.id))) none)
 
 def sysLabel (fixed : Bool) (s : Sys) (i : Nat) : Option Json :=
   match s.ths[i]? with
@@ -186,10 +202,12 @@ def skipSilent (fixed : Bool) (i : Nat) : Nat → Sys → Sys
       | some _ => s
       | none => skipSilent fixed i n (s.step fixed i 0)
 
-def replayTr (fixed : Bool) : Sys → Nat → List (Nat × Json) → Sys × Option (Nat × Json)
+def replayTr (fixed : Bool) : Sys → Nat → List (Nat × Json × Int) → Sys × Option (Nat × Json)
   | s, _, [] => (s, none)
-  | s, k, (i, l) :: rest =>
-    let s1 := skipSilent fixed i 8 s
+  | s, k, (i, l, clk) :: rest =>
+    let s0 := skipSilent fixed i 8 s
+    -- the observed clock at this step: that much time has passed since the previous step
+    let s1 : Sys := { s0 with g := { s0.g with clock := max s0.g.clock clk } }
     match sysLabel fixed s1 i with
     | none => (s1, some (k, Json.arr #[.str "done"]))
     | some ml => if ml == l then replayTr fixed (s1.step fixed i 0) (k + 1) rest else (s1, some (k, ml))
@@ -214,7 +232,7 @@ def handleTr (op : String) (j : Json) : Except String Json := do
       | _ => throw "bad prog"
     let steps ← (← getArr j "trace").mapM fun e =>
       match e with
-      | .arr #[i, l] => do pure ((← i.getNat?), l)
+      | .arr #[i, l, c] => do pure ((← i.getNat?), l, (← c.getInt?))
       | _ => throw "bad trace entry"
     let (s, bad) := replayTr fixed (Sys.init ntr progs clock) 0 steps
     -- let every thread finish its trailing silent steps
